@@ -6,6 +6,8 @@ CONSTANTS
   MaxMut = 3
   TripleFields = {"ratelimit/connection_limit/resume", "cache/ecs_size", "cache/size", "check/kv/ttl",
                   "ratelimit/tcp/max_pipeline_count", "ratelimit/ipv6/subnet_key_len",
-                  "server_groups/0/ddr/public_records/dns.example.com/tls_port"}
+                  "server_groups/0/ddr/public_records/dns.example.com/tls_port",
+                  "ratelimit/response_size_estimate", "ratelimit/connection_limit/stop", "cache/type",
+                  "check/kv/type", "dns/tcp_idle_timeout", "filters/custom_filter_cache_size"}
 INVARIANTS BaselineHolds AcceptedImpliesSafe AcceptedImpliesValid DocImpliesSafe RejectedNamesProperty
 CHECK_DEADLOCK FALSE
